@@ -142,6 +142,11 @@ func (m *C13) OnStep(gh explore.Ghost, st *explore.Step) []V {
 			}
 			cl := pre.ClassByID(msg.ClassId)
 			if cl != nil {
+				// the receipt lands in a batch of the class named by the message
+				if ck, ok := classKeyOfBatch(post, r.BatchDenom); ok && ck != cl.Key {
+					out = append(out, V{Kind: "C13/receipt-landed-in-another-class",
+						Detail: fmt.Sprintf("%s names class %s (key %d) but minted into %s of class key %d", st.Act.Label, msg.ClassId, cl.Key, r.BatchDenom, ck)})
+				}
 				if bd, bound := g.bound[fmt.Sprintf("%d|%s", cl.Key, msg.OriginTx.Contract)]; bound {
 					m.inc("receipts_for_bound_contract")
 					if r.BatchDenom != bd {
